@@ -12,7 +12,7 @@ DepthCases == { [k |-> "depth", f |-> p[1], path |-> p[2], open |-> p[3], close 
 EncCases == { [k |-> "enc-depth", f |-> f, kind |-> kd, limit |-> l, depth |-> d, accept |-> AcceptDepth(d, l)]
               : f \in EncoderFormats, kd \in EncoderKinds, l \in Limits_, d \in UNION {Depths(x) : x \in Limits_} }
 ItemCases == { [k |-> "maxitems", kind |-> kd, maxitems |-> m, count |-> n, refuse |-> RefuseItems(n, m)]
-               : kd \in {"array-counted", "array-typed", "object-counted"}, m \in {0, 1, 2, 5}, n \in {0, 1, 2, 3, 5, 6} }
+               : kd \in {"array-counted", "array-typed", "object-counted", "object-typed"}, m \in {0, 1, 2, 5}, n \in {0, 1, 2, 3, 5, 6} }
 \* at: 0 = the claimed-length header is the first thing in the input; otherwise the header is preceded, inside an enclosing array, by one
 \* filler string so that it ENDS exactly at that offset of the input (the stream sources read in chunks of 16384 bytes: header ending just
 \* before / at / just after a chunk boundary; BSON has no such wrapper here)
